@@ -258,7 +258,7 @@ def rule(cfg, which):
     return res
 
 
-def lock6(cfg):
+def lock6(cfg, kinds=('leaf', 'inode')):
     """LOCK-6 deferred free only: in the OLC instantiation an EXISTING (published) node is never wrapped in an owner with the
     immediate deleter, outside the single-threaded teardown path"""
     res = RuleResult('LOCK-6', 'in the OLC instantiation, nodes that were ever reachable are released only through QSBR (reclaimable pointers); the immediate deleter is applied to an existing node only in the single-threaded teardown (delete_subtree)')
@@ -278,8 +278,9 @@ def lock6(cfg):
                 if not fresh and f.short not in ('make_db_leaf_ptr', 'make_db_inode_unique_ptr'):
                     n += 1
                     single = any(s_ in f.name for s_ in SINGLE)
-                    res.ob(single, {'rule': 'LOCK-6', 'function': sh(f.name)[:110], 'site': fileline(e.get('loc')), 'callee': 'unique_ptr<..., immediate deleter>(raw pointer)', 'verdict': 'single-threaded teardown' if single else 'VIOLATION'})
-                    if not single:
+                    kind = 'leaf' if 'basic_db_leaf_deleter<' in (e.get('cls') or '') else 'inode'
+                    res.ob(single or kind not in kinds, {'rule': 'LOCK-6', 'function': sh(f.name)[:110], 'site': fileline(e.get('loc')), 'callee': 'unique_ptr<..., immediate deleter>(raw pointer)', 'verdict': 'single-threaded teardown' if single else ('VIOLATION' if kind in kinds else 'not a %s: outside this property' % '/'.join(kinds))})
+                    if not single and kind in kinds:
                         res.find(f, e.get('loc'), 'an existing OLC node is wrapped in a unique_ptr with the IMMEDIATE deleter: it is freed at scope exit although readers that have not passed a quiescent state may still hold pointers to it (the value view returned by get() must stay valid until the caller\'s next quiescent state); removed nodes must go through the QSBR-deferring reclaimable pointer', key='LOCK-6:immediate-owner-ctor:%s' % f.short, config=cfg.name)
                 continue
             if nm not in ('make_db_inode_unique_ptr', 'make_db_leaf_ptr', 'free_aligned'):
@@ -298,8 +299,10 @@ def lock6(cfg):
                 continue
             n += 1
             single = any(s in f.name for s in SINGLE)
-            res.ob(single, {'rule': 'LOCK-6', 'function': sh(f.name)[:110], 'site': fileline(e.get('loc')), 'callee': nm, 'verdict': 'single-threaded teardown' if single else 'VIOLATION'})
-            if not single:
+            kind = 'leaf' if nm == 'make_db_leaf_ptr' else ('inode' if nm == 'make_db_inode_unique_ptr' else 'leaf+inode')
+            inscope = any(k_ in kind for k_ in kinds)
+            res.ob(single or not inscope, {'rule': 'LOCK-6', 'function': sh(f.name)[:110], 'site': fileline(e.get('loc')), 'callee': nm, 'verdict': 'single-threaded teardown' if single else ('VIOLATION' if inscope else 'not a %s: outside this property' % '/'.join(kinds))})
+            if not single and inscope:
                 res.find(f, e.get('loc'), 'an existing OLC node is wrapped in an owner with the IMMEDIATE deleter (%s): it is freed at scope exit although readers that have not passed a quiescent state may still hold pointers to it (use-after-free); replaced / removed nodes must go through the QSBR-deferring reclaimable pointer' % nm, key='LOCK-6:immediate-free:%s' % f.short, config=cfg.name)
     res.count('immediate-owner sites on existing OLC nodes', n)
     res.floor('immediate-owner sites on existing OLC nodes', 1)
